@@ -58,8 +58,8 @@ CLAIMED = {
  "C18": ("Proof: every decoder is verified with the receiver object in an arbitrary initial state (recycled object), so its postcondition 'fields are a function of the frame' forces every list to be reset and every field assigned; read replies carry at most count bytes written by this request's ReadAt.",
          "registry.get/put and recv's payload-buffer handling are not yet verified against bodies. Bridge contracts as in C01.",
          "4-C18"),
- "C20": ("Proof (unbounded, all 64-bit inputs): encodeLikely against an independent spec function of the dev_t layout, injectivity and bit-63 disjointness as lemmas over that contract, ModeFromOS/OSMode/QIDType round-trip lemmas over the real SSA of the functions for all 2^32 modes.",
-         "Not yet under contract: localToQid's fallback table and qids.Mapper (stability / concurrency halves of the statement).",
+ "C20": ("Proof (unbounded, all 64-bit inputs): encodeLikely against an independent spec function of the dev_t layout, injectivity and bit-63 disjointness as lemmas over that contract; localToQid against a ghost view of its sync.Map and atomic counter (known pairs keep their path, new pairs get a fresh path with bit 63 set, table invariant: values distinct and below the counter, other pairs untouched); qids.Mapper.QIDFor (stable, injective, recorded, invariant preserved) with a guarded-by obligation on Mapper.paths; PathGenerator.NewPath; ModeFromOS/OSMode/QIDType round-trip lemmas over the real SSA for all 2^32 modes.",
+         "sync.Map and sync/atomic are modelled sequentially (linearizability trusted); counter wrap-around after 2^63 fallback paths / 2^64 mapper paths excluded by precondition; os.FileInfo.Sys is assumed to return *syscall.Stat_t (as localfs uses it). Findings F7 and F8 fixed (known_findings.txt).",
          "4-C20"),
 }
 
